@@ -5,9 +5,12 @@ Line protocol for C20 (separation helpers).  Stateless: every line carries all i
 helper call as `key=value` tokens (vectors `a,b,c`; lists of vectors `v;w`; `-` = empty / None).
 
   ms  n= ins=v;w split=v                                     -> ms top=v bot=v
-  am  n= R=v P=v MW=v k= mode=mol|mass mwc= mc= strict=none|0|1 -> am R=v P=v clip=0|1 | am err=…
+  am  n= R=v P=v MW=v k= mode=mol|mass mwc= mc= strict=none|0|1 -> am R=v P=v path=clip|noclip | am err=…
+  msm n= ins=v;w split=v MW=v k= mode= mwc= mc= strict=      -> msm R=v P=v path=… | msm err=…
   pf  n= feed=v ids=l K=v topc=l botc=l phi= strict=0|1          -> pf phi= | pf err=…
-  pt  n= feed=v bot0=v ids=l K=v topc=l botc=l phi= strict=0|1   -> pt phi= top=v bot=v clip= kdev= [borderline] | pt err=…
+  pt  n= feed=v bot0=v ids=l K=v topc=l botc=l phi= strict=0|1   -> pt phi= top=v bot=v clip=0|1 kok=0|1 [path=silent-clip] [borderline] | pt err=…
+      (clip = the clipping was reported by a warning; kok = top_i/(K_i·bottom_i) agree over the equilibrium chemicals;
+       bot0 is accepted and ignored: the repaired partition does not read it)
   bpf zs=v ks=v za= zb= solver=                              -> bpf path= phi=
   lle n= feed=v L=v l=v tc=0|1 rhol=x|none rhoL=x|none eff=  -> lle top=v bot=v hyp=0|1
   vle n= feed=v g=v l=v                                      -> vle vap=v liq=v hyp=0|1
@@ -97,6 +100,20 @@ def run (op : String) (kv : KV) : Option String :=
     match adjustMoisture { n, R, P, MW, k, byMol, mwc, mc, strict } with
     | .ok (r, p, c) => some (s!"am R={showVec r} P={showVec p}" ++ (if c then " path=clip" else " path=noclip"))
     | .error e => some s!"am err={e.toString}"
+  | "msm" => do
+    let n ← (← kv.get "n").toNat?
+    let ins ← parseVecs (← kv.get "ins")
+    let split ← parseVec (← kv.get "split")
+    let MW ← parseVec (← kv.get "MW")
+    let k ← (← kv.get "k").toNat?
+    let byMol ← (match (← kv.get "mode") with | "mol" => some true | "mass" => some false | _ => none)
+    let mwc ← parseRat? (← kv.get "mwc")
+    let mc ← parseRat? (← kv.get "mc")
+    let strict ← (match (← kv.get "strict") with
+      | "none" => some none | "0" => some (some false) | "1" => some (some true) | _ => none)
+    match mixSplitMoisture n ins split MW k byMol mwc mc strict with
+    | .ok (r, p, c) => some (s!"msm R={showVec r} P={showVec p}" ++ (if c then " path=clip" else " path=noclip"))
+    | .error e => some s!"msm err={e.toString}"
   | "pf" => do
     let p ← parsePart kv
     let two := decide (0 < p.phi) && decide (p.phi < 1)
